@@ -126,6 +126,6 @@ Proof.
   - apply He in H. tauto.
   - apply He in H. tauto.
   - apply He in H. destruct H as [_ Q]. rewrite Q in Hd. exact Hd.
-  - intros T. apply He in H. destruct H as [_ Q]. rewrite Q, T in Hd.
+  - intros F T. apply He in F. destruct F as [_ Q]. rewrite Q, T in Hd.
     rewrite app_nil_r in Hd. exact Hd.
 Qed.
